@@ -433,9 +433,44 @@ Fixpoint expected_at (k : kind) (hist : nat -> list msg) (p : msg -> bool) (t : 
       match k with Req => ee ++ et | Res => et ++ ee end
   end.
 
-(* An operation racing with ONE in-flight message must be atomic with respect
-   to it (fifo.Group's per-kind RWMutex: traffic holds the read lock across
-   all the group's children, queries and resets take the write lock): the
-   observed answers are those of one of the two sequential orders. *)
-Definition c13_either_ok (c : cfg) (h1 h2 : list label) (observed : list (list failure)) : bool :=
-  c13_ok c h1 observed || c13_ok c h2 observed.
+(* ------------------------------------------------------------------ *)
+(* Oracles over schedules                                               *)
+(* ------------------------------------------------------------------ *)
+
+(* every interleaving of two sequences (each keeps its own order) *)
+Fixpoint all_merges {A} (a : list A) : list A -> list (list A) :=
+  match a with
+  | [] => fun b => [b]
+  | x :: a' =>
+      fix inner (b : list A) : list (list A) :=
+        match b with
+        | [] => [x :: a']
+        | y :: b' => map (cons x) (all_merges a' b) ++ map (cons y) (inner b')
+        end
+  end.
+
+(* Operations of two goroutines [t1], [t2] racing after the history [pre] and
+   followed by [post]: if every operation is atomic with respect to the
+   others (fifo.Group's per-kind RWMutex: traffic holds the read lock across
+   all the group's children, queries and resets take the write lock), the
+   observed answers are those of SOME interleaving. *)
+Definition c13_serial_ok (c : cfg) (pre t1 t2 post : list label) (observed : list (list failure)) : bool :=
+  existsb (fun mid => c13_ok c (pre ++ mid ++ post) observed) (all_merges t1 t2).
+
+(* one answer against the specified one, exactly *)
+Definition c13_answer_ok (want obs : list failure) : bool := list_eqb failure_eqb obs want.
+
+(* the answer after all racing traffic has completed: the specified errors in
+   some order (the order inside one verifier's list is the arrival order,
+   which the schedule decides), none missing, none extra, none twice *)
+Definition c13_same_set_ok (want obs : list failure) : bool :=
+  forallb (fun f => fmem f obs) want && forallb (fun f => fmem f want) obs && nodupb obs.
+
+(* a structure without pingback leaves never reports "never occurred" *)
+Fixpoint no_pb (t : ktree) : bool :=
+  match t with
+  | KLeaf _ vt _ _ => match vt with VPingback => false | _ => true end
+  | KOther => true
+  | KFifo cs => forallb no_pb cs
+  | KFilt _ tb eb => no_pb tb && no_pb eb
+  end.
